@@ -230,6 +230,7 @@ int main(int argc, char** argv) {
     cfg.concurrency = 2;
     cfg.timeout = 60;
     cfg.captureStderr = true;
+    cfg.inProcess = inProc;
     cfg.maxExec = thorough ? 30000 : 5000;
     // The world is built ONCE here and every execution forks from it, so each child starts from the
     // same unevaluated shared objects.  Scheduling points: every mutex operation (pNodeMutex_, the
@@ -237,12 +238,24 @@ int main(int argc, char** argv) {
     // atomic-access pool) and the hooked atomics that are shared BETWEEN clients (tags "shared-*").
     // Atomics on data private to one evaluating client are not scheduling points (sound for
     // race-free code; race freedom is what the TSan variant monitors on the same schedules).
-    World* w0 = makeWorld();
+#if defined(__SANITIZE_THREAD__)
+    const bool inProc = true;
+#elif defined(__has_feature)
+#if __has_feature(thread_sanitizer)
+    const bool inProc = true;
+#else
+    const bool inProc = false;
+#endif
+#else
+    const bool inProc = false;
+#endif
+    World* w0 = inProc ? nullptr : makeWorld();
     auto body = [&]() {
+      // in-process exploration (TSan variant): a fresh world per execution, built before the scheduler hooks are armed
+      World* w = inProc ? makeWorld() : w0;
       verif::yield = [](const char* tag, const void*) {
         if (tag[0] == 's' && tag[1] == 'h') vs_point(tag);
       };
-      World* w = w0;
       std::vector<std::vector<std::string>> obs(pr.size());
       std::vector<std::function<void()>> fs;
       for (size_t t = 0; t < pr.size(); ++t)
@@ -287,6 +300,15 @@ int main(int argc, char** argv) {
       }
       if (e.races && !raceReported) {
         raceReported = true;
+        vx::Exec withText = e;
+        if (cfg.inProcess) {
+          // replay this very schedule once in a forked child to capture the report text
+          vx::Config c2 = cfg;
+          c2.inProcess = false;
+          c2.captureStderr = true;
+          withText = ex.run(e.choices, c2, body);
+        }
+        const vx::Exec& e = withText;
         // key by the two access sites of the first report
         std::string site;
         size_t p = e.stderrText.find("WARNING: ThreadSanitizer");
